@@ -4,7 +4,28 @@ Only the property's own text goes in (statement, quantifier, anchors); nothing o
 import json, sys
 
 pid, wt = sys.argv[1], sys.argv[2]
-n = int(sys.argv[3]) if len(sys.argv) > 3 else 2
+n = int(sys.argv[3]) if len(sys.argv) > 3 and not sys.argv[3].startswith("--") else 2
+ANGLES = {
+ "glue": """
+ANGLE FOR THIS ROUND: many earlier rounds already changed the obvious sites (the functions named above). This time put
+your changes into code the property depends on only INDIRECTLY - shared helpers, trait impls for references / boxes /
+tuples / arrays, blanket impls and provided (default) trait methods, `From` / `Into` / `TryFrom` conversions, constructors
+and `Default` impls, `Clone` / `PartialEq` / `Hash` / `Display` impls that other code relies on, error conversions, the
+`Population` / `Genome` / `Linear` / `Crossover` / `Composable` / `HasStack` / `HasStdout` plumbing, the proc-macros'
+generated code, iterator adapters, or a second call path that reaches the same functionality (e.g. through a wrapper, a
+`&T` impl, an erased form, a convenience method) - so that the directly named functions stay untouched but the property
+still breaks for a caller who goes through that other path. Text formatting counts where the property talks about
+printed output.""",
+ "state": """
+ANGLE FOR THIS ROUND: earlier rounds concentrated on single calls with unusual inputs. This time make the breakage depend
+on HISTORY: a value that is used more than once (the second call differs from the first), state that leaks from one
+call to the next (a cache, a counter, a reused buffer, a `Cell`/`OnceLock`/`static`/thread-local), an object that is
+cloned and then both copies used, reconfigured through a public field or setter between uses, moved between threads,
+or results that depend on the ORDER in which independent operations are performed. A single fresh use must still be right.""",
+}
+angle = ""
+for a in sys.argv[3:]:
+    if a.startswith("--angle="): angle = ANGLES[a[len("--angle="):]]
 for l in open("/verif/properties.jsonl"):
     p = json.loads(l)
     if p["id"] == pid:
@@ -32,6 +53,7 @@ Here is a semantic property that the library is supposed to satisfy:
 {mech}
 {('  State:' + chr(10) + state) if state else ''}
 
+{angle}
 YOUR TASK: produce {n} different, independent, realistic changes ("mutants") to the library source (under
 `packages/*/src`, including the proc-macro crates if relevant) such that each change
   (a) still compiles and the WHOLE existing test suite still passes unedited with it (`cargo test --workspace --offline`),
